@@ -17,6 +17,8 @@ import (
 	"go/token"
 	"go/types"
 	"strings"
+
+	"golang.org/x/tools/go/ssa"
 )
 
 func init() {
@@ -462,12 +464,69 @@ func (e *lxEnv) steps(list []ast.Stmt, loop string, res *lxResult) bool {
 			}
 			res.why = "final return is neither false nor a strict comparison of a key at " + e.pos(st)
 			return false
+		case *ast.AssignStmt:
+			// a mirrored pair of local definitions (lc := &l.X[i]; rc := &r.X[i])
+			if st.Tok == token.DEFINE && i+1 < len(list) {
+				if nx, ok := list[i+1].(*ast.AssignStmt); ok && nx.Tok == token.DEFINE && e.mirror(st, nx, true) {
+					i += 2
+					continue
+				}
+			}
+			res.why = fmt.Sprintf("a local definition without its mirror image at %s", e.pos(s))
+			return false
 		default:
 			res.why = fmt.Sprintf("unexpected statement %T at %s", s, e.pos(s))
 			return false
 		}
 	}
 	return true
+}
+
+// lxDelegate looks through a comparator whose whole body is
+// `return f(A, B)` with A and B mirror images and f a package-level function
+// of two parameters: the chain to analyse is f's body.
+func lxDelegate(files []*ast.File, info *types.Info, fset *token.FileSet, body *ast.BlockStmt, l, r string) (*ast.BlockStmt, string, string) {
+	if body == nil || len(body.List) != 1 {
+		return body, l, r
+	}
+	ret, ok := body.List[0].(*ast.ReturnStmt)
+	if !ok || len(ret.Results) != 1 {
+		return body, l, r
+	}
+	call, ok := ret.Results[0].(*ast.CallExpr)
+	if !ok || len(call.Args) != 2 {
+		return body, l, r
+	}
+	id, ok := call.Fun.(*ast.Ident)
+	if !ok {
+		return body, l, r
+	}
+	fn, ok := info.Uses[id].(*types.Func)
+	if !ok {
+		return body, l, r
+	}
+	e := &lxEnv{info: info, fset: fset, pair: map[string]string{l: r, r: l}, acc: map[string]bool{}, l: l, r: r, leftLocals: map[string]bool{}}
+	if !e.mirror(call.Args[0], call.Args[1], false) || e.src(call.Args[0]) == e.src(call.Args[1]) {
+		return body, l, r
+	}
+	for _, f := range files {
+		for _, d := range f.Decls {
+			fd, ok := d.(*ast.FuncDecl)
+			if !ok || fd.Body == nil || fd.Recv != nil || info.Defs[fd.Name] != types.Object(fn) {
+				continue
+			}
+			var ps []string
+			for _, fl := range fd.Type.Params.List {
+				for _, n := range fl.Names {
+					ps = append(ps, n.Name)
+				}
+			}
+			if len(ps) == 2 {
+				return fd.Body, ps[0], ps[1]
+			}
+		}
+	}
+	return body, l, r
 }
 
 func (e *lxEnv) pos(n ast.Node) string {
@@ -725,8 +784,9 @@ func runLX(c *Ctx) (obls []Obl) {
 			if len(ps) != 2 {
 				a.und("LX-swo", "Aggregate.comparator", "unexpected comparator signature", lit.Pos())
 			} else {
-				e := newEnv(ps[0], ps[1])
-				res := e.analyse(lit.Body)
+				cbody, cl, cr := lxDelegate(pkg.Syntax, pkg.TypesInfo, c.L.Fset, lit.Body, ps[0], ps[1])
+				e := newEnv(cl, cr)
+				res := e.analyse(cbody)
 				results["Aggregate.comparator"] = res
 				if res.ok {
 					var ks []string
@@ -891,74 +951,111 @@ func lxEnum(c *Ctx, a *flAgg) {
 	if k, ok := pkg.Types.Scope().Lookup("lastLocation").(*types.Const); ok {
 		last, _ = constant.Int64Val(k.Val())
 	}
-	n := 0
+	isLoc := func(t types.Type) bool {
+		n, ok := t.(*types.Named)
+		return ok && n.Obj().Name() == "Location" && n.Obj().Pkg() != nil && n.Obj().Pkg().Path() == modPath+"/stack"
+	}
+	// call sites by callee
+	var all []*ssa.Function
 	for _, pn := range []string{"stack", "internal", "stack/webstack"} {
-		p := c.L.tpkg(pn)
-		if p == nil {
-			continue
+		all = append(all, c.L.SrcFuncs(pn)...)
+	}
+	callers := map[*ssa.Function][]*ssa.CallCommon{}
+	for _, f := range all {
+		for _, b := range f.Blocks {
+			for _, in := range b.Instrs {
+				if ci, ok := in.(ssa.CallInstruction); ok {
+					if cal := ci.Common().StaticCallee(); cal != nil {
+						callers[cal] = append(callers[cal], ci.Common())
+					}
+				}
+			}
 		}
-		for _, f := range p.Syntax {
-			ast.Inspect(f, func(nd ast.Node) bool {
-				as, ok := nd.(*ast.AssignStmt)
+	}
+	// okVal: the value is a constant below lastLocation, a copy of another
+	// Location field, or a parameter every call site binds to such a value.
+	var okVal func(v ssa.Value, depth int, seen map[ssa.Value]bool) (string, bool)
+	okVal = func(v ssa.Value, depth int, seen map[ssa.Value]bool) (string, bool) {
+		if depth > 5 || seen[v] {
+			return "cycle", depth <= 5
+		}
+		seen[v] = true
+		switch v := v.(type) {
+		case *ssa.Const:
+			if v.Value != nil {
+				if k, ok := constant.Int64Val(v.Value); ok && k >= 0 && k < last {
+					return v.Value.ExactString(), true
+				}
+			}
+			return "const", false
+		case *ssa.UnOp:
+			if fa, ok := v.X.(*ssa.FieldAddr); ok && v.Op == token.MUL && isLoc(v.Type()) && addrLast(fa) == "Location" {
+				return "copy", true
+			}
+		case *ssa.Field:
+			if isLoc(v.Type()) {
+				return "copy", true
+			}
+		case *ssa.Phi:
+			for _, e := range v.Edges {
+				if _, ok := okVal(e, depth+1, seen); !ok {
+					return "phi", false
+				}
+			}
+			return "phi", true
+		case *ssa.Parameter:
+			fn := v.Parent()
+			idx := -1
+			for i, p := range fn.Params {
+				if p == v {
+					idx = i
+				}
+			}
+			cs := callers[fn]
+			if idx < 0 || len(cs) == 0 || fn.Object() == nil || fn.Object().Exported() {
+				return "param", false
+			}
+			for _, cc := range cs {
+				if idx >= len(cc.Args) {
+					return "param", false
+				}
+				if _, ok := okVal(cc.Args[idx], depth+1, seen); !ok {
+					return "param", false
+				}
+			}
+			return fmt.Sprintf("param(%d call sites)", len(cs)), true
+		}
+		return "?", false
+	}
+	n := 0
+	for _, f := range all {
+		for _, b := range f.Blocks {
+			for _, in := range b.Instrs {
+				st, ok := in.(*ssa.Store)
 				if !ok {
-					return true
+					continue
 				}
-				for i, l := range as.Lhs {
-					sel, ok := l.(*ast.SelectorExpr)
-					if !ok || sel.Sel.Name != "Location" || i >= len(as.Rhs) {
-						continue
+				fa, ok := st.Addr.(*ssa.FieldAddr)
+				if !ok || addrLast(fa) != "Location" || !isLoc(st.Val.Type()) {
+					continue
+				}
+				n++
+				fn := shortFn(f)
+				what, ok := okVal(st.Val, 0, map[ssa.Value]bool{})
+				switch {
+				case ok && what == "copy":
+					a.ok("LX-enum", fn+"/Location=copy", "Location copied from another call", st.Pos())
+				case ok && strings.HasPrefix(what, "param"):
+					// one instance per call site so that extracting the assignments into a helper keeps the count
+					for i := range callers[f] {
+						a.ok("LX-enum", fmt.Sprintf("%s/Location=param#%d", fn, i), "Location comes from a parameter that every call site binds to a named constant below lastLocation", st.Pos())
 					}
-					if v, ok := p.TypesInfo.ObjectOf(sel.Sel).(*types.Var); !ok || !v.IsField() {
-						continue
-					}
-					n++
-					tv := p.TypesInfo.Types[as.Rhs[i]]
-					key := fmt.Sprintf("%s", c.L.Pos(as.Pos()))
-					_ = key
-					fn := enclosingFuncName(f, as.Pos())
-					if tv.Value != nil {
-						if v, _ := constant.Int64Val(tv.Value); v >= 0 && v < last {
-							a.ok("LX-enum", fn+"/Location="+tv.Value.ExactString(), "Location is assigned a named constant below lastLocation", as.Pos())
-							continue
-						}
-					}
-					// a copy of another Location field
-					if s2, ok := as.Rhs[i].(*ast.SelectorExpr); ok && s2.Sel.Name == "Location" {
-						a.ok("LX-enum", fn+"/Location=copy", "Location copied from another call", as.Pos())
-						continue
-					}
-					a.bad("LX-enum", fn+"/Location=?", "Location is assigned a value that is not a known constant below lastLocation: the count arrays of Stack.less would be indexed out of range", as.Pos())
+				case ok:
+					a.ok("LX-enum", fn+"/Location="+what, "Location is assigned a named constant below lastLocation", st.Pos())
+				default:
+					a.bad("LX-enum", fn+"/Location=?", "Location is assigned a value that is not a known constant below lastLocation: the count arrays of Stack.less would be indexed out of range", st.Pos())
 				}
-				return true
-			})
-			// composite literals with Location: <expr>
-			ast.Inspect(f, func(nd ast.Node) bool {
-				kv, ok := nd.(*ast.KeyValueExpr)
-				if !ok {
-					return true
-				}
-				id, ok := kv.Key.(*ast.Ident)
-				if !ok || id.Name != "Location" {
-					return true
-				}
-				if v, ok := p.TypesInfo.ObjectOf(id).(*types.Var); !ok || !v.IsField() {
-					return true
-				}
-				fn := enclosingFuncName(f, kv.Pos())
-				tv := p.TypesInfo.Types[kv.Value]
-				if tv.Value != nil {
-					if v, _ := constant.Int64Val(tv.Value); v >= 0 && v < last {
-						a.ok("LX-enum", fn+"/Location="+tv.Value.ExactString(), "Location literal below lastLocation", kv.Pos())
-						return true
-					}
-				}
-				if s2, ok := kv.Value.(*ast.SelectorExpr); ok && s2.Sel.Name == "Location" {
-					a.ok("LX-enum", fn+"/Location=copy", "Location copied from another call", kv.Pos())
-					return true
-				}
-				a.bad("LX-enum", fn+"/Location=?", "Location is initialised with a value that is not a known constant below lastLocation", kv.Pos())
-				return true
-			})
+			}
 		}
 	}
 	c.stat("LX", "location_stores", n)
